@@ -24,6 +24,8 @@ func main() {
 		cmdCheck(os.Args[2:])
 	case "loops":
 		cmdLoops(os.Args[2:])
+	case "sweep":
+		cmdSweep(os.Args[2:])
 	default:
 		fmt.Fprintln(os.Stderr, "unknown command", os.Args[1])
 		os.Exit(2)
@@ -189,3 +191,72 @@ func cmdLoops(args []string) {
 	}
 }
 
+
+// cmdSweep: zero-annotation safety sweep. Every pint function that contains an instruction of the requested kind
+// is verified with the synthetic contract "safe <kinds>" (no preconditions). A failure here is NOT a violation:
+// it is a candidate to look at (the missing precondition may well hold at every call site).
+func cmdSweep(args []string) {
+	fs := flag.NewFlagSet("sweep", flag.ExitOnError)
+	repo := fs.String("repo", "/repo", "repository root")
+	kinds := fs.String("kinds", "type-assert", "safety kinds")
+	pkgFilter := fs.String("pkg", "", "only functions whose key starts with this package name")
+	timeout := fs.Int("timeout", 5, "solver timeout")
+	fs.Parse(args)
+	p, err := load(*repo)
+	if err != nil {
+		fmt.Fprintln(os.Stderr, "load:", err)
+		os.Exit(2)
+	}
+	ks := strings.Split(*kinds, ",")
+	var obls []*Obligation
+	nf := 0
+	for _, fn := range p.allFuncs {
+		if fn.Parent() != nil || len(fn.Blocks) == 0 || fn.Synthetic != "" {
+			continue
+		}
+		key := funcKey(fn)
+		if *pkgFilter != "" && !strings.HasPrefix(key, *pkgFilter+".") {
+			continue
+		}
+		if p.contracts.byKey[key] != nil {
+			continue
+		}
+		interesting := false
+		for _, b := range fn.Blocks {
+			for _, in := range b.Instrs {
+				if ta, ok := in.(*ssa.TypeAssert); ok && !ta.CommaOk {
+					interesting = true
+				}
+			}
+		}
+		if !interesting {
+			continue
+		}
+		nf++
+		fc := &FuncContract{Pkg: strings.SplitN(key, ".", 2)[0], Name: strings.SplitN(key, ".", 2)[1], Loops: map[int]*LoopSpec{}, Safe: true, SafeKinds: ks, Props: []string{"sweep"}}
+		func() {
+			defer func() {
+				if r := recover(); r != nil {
+					fmt.Printf("ENGINE-ERROR %s: %v\n", key, r)
+				}
+			}()
+			vc := p.verifyFunction(fc, fn)
+			for _, ob := range vc.obls {
+				if ob.Kind == "safe" {
+					obls = append(obls, ob)
+				}
+			}
+		}()
+	}
+	runObligations(obls, *timeout, false, "", 16)
+	proved, open := 0, 0
+	for _, ob := range obls {
+		if ob.Status == "discharged" {
+			proved++
+		} else {
+			open++
+			fmt.Printf("open  %-60s %s [%s]\n", ob.Name, ob.Status, ob.Pos)
+		}
+	}
+	fmt.Printf("sweep %s: %d functions, %d obligations, %d proved, %d open\n", *kinds, nf, len(obls), proved, open)
+}
